@@ -1,8 +1,8 @@
 (* C10 - Lookups and queries inside a session see the session's own unflushed changes.
    Property theorems only: each is closed by `exact <lemma>`; Print Assumptions must report a closed term.
 
-   Proved: read-your-own-write for plain integer attributes, for every schema and every history of the session model that
-   reached no dirty site.  The general statement (every read - references, collections, counts, E[pk], get, select - answers
+   Proved: read-your-own-write for every scalar attribute (int / str, unique or not), for every schema and every history of the
+   session model that reached no dirty site.  The general statement (every read - references, collections, counts, E[pk], get, select - answers
    from the logical state of the session) is NOT proved: it is checked on generated histories against the reference state of
    tools/session_spec.py (on the implementation) and refuted for five known defects (Findings/C10.v).  Stage 1 schema space. *)
 Require Import PonyV.Model.SessionBase PonyV.Model.SessionDb PonyV.Model.Session.
@@ -15,6 +15,15 @@ Theorem C10_read_after_set_except_known : forall sch, wf_schema sch = true -> fo
   snd (read_op sch s' h a) = RVal (VInt z).
 Proof. exact read_after_set_all_histories. Qed.
 Print Assumptions C10_read_after_set_except_known.
+
+(* ... and for every scalar attribute - int or str, unique or not, any accepted value (None included): what a successful obj.a = v stored
+   (the validated value) is what obj.a reads, in every clean history *)
+Theorem C10_read_after_set_scalar_except_known : forall sch, wf_schema sch = true -> forall ops h a v o at_ s',
+  s_dirty (run sch ops) = O -> hget (run sch ops) h = Some o -> get_attr sch (obj_ent (run sch ops) o) a = Some at_ ->
+  is_scalar_kind (a_kind at_) = true -> set_op sch (run sch ops) h a v = (s', ROk) ->
+  exists nv, validate (run sch ops) at_ (Some v) = VOk nv /\ snd (read_op sch s' h a) = RVal nv.
+Proof. exact read_after_set_scalar_all_histories. Qed.
+Print Assumptions C10_read_after_set_scalar_except_known.
 
 (* the same from any state whose objects have one value slot per attribute *)
 Theorem C10_read_after_set_step : forall sch s h a z o at_ s',
